@@ -133,6 +133,21 @@ struct Scenario {
     base: Vec<Vec<(Vec<u8>, Vec<u8>)>>,
     target: Vec<(Vec<u8>, Vec<u8>)>,
     labels: Vec<Vec<u8>>,
+    /// inject faults into the write operations of the target publish only (large publishes)
+    writes_only: bool,
+}
+/// a publish whose write-set exceeds a thousand records (a data layer may be handed the commit in several
+/// statements): one small epoch, then several hundred new labels and two updates at once
+fn large_scenario() -> Scenario {
+    let base_labels: Vec<Vec<u8>> = (0..3u8).map(|i| vec![b'L', i]).collect();
+    let base = vec![base_labels.iter().enumerate().map(|(i, l)| (l.clone(), vec![1, i as u8])).collect::<Vec<_>>()];
+    let mut target: Vec<(Vec<u8>, Vec<u8>)> = (0..420u16).map(|i| (vec![b'B', (i >> 8) as u8, i as u8], vec![9, i as u8])).collect();
+    target.push((base_labels[0].clone(), vec![9, 0xFE]));
+    target.push((base_labels[1].clone(), vec![9, 0xFD]));
+    let mut labels = base_labels.clone();
+    labels.push(vec![b'B', 0, 3]);
+    labels.push(vec![b'B', 1, 7]);
+    Scenario { base, target, labels, writes_only: true }
 }
 /// random small directory: the target publish adds several new labels at once (a split above an
 /// existing interior node together with an insertion below it needs two new labels sharing a prefix
@@ -157,7 +172,7 @@ fn random_scenario(r: &mut Rng) -> Scenario {
     if r.chance(1, 2) {
         target.push((labels[r.below(nb as u64) as usize].clone(), vec![9, 0xFF]));
     }
-    Scenario { base, target, labels }
+    Scenario { base, target, labels, writes_only: false }
 }
 
 fn scenario(r: &mut Rng, shape: u32) -> Scenario {
@@ -190,7 +205,7 @@ fn scenario(r: &mut Rng, shape: u32) -> Scenario {
             b
         }
     };
-    Scenario { base, target, labels }
+    Scenario { base, target, labels, writes_only: false }
 }
 
 async fn settle() {
@@ -225,7 +240,11 @@ async fn c10_scenario<TC: Configuration>(cx: &mut Cx, sc: &Scenario, cached: boo
         t_after.hashes.push(twin_res.1);
     }
     let twin_final = canon_dump(twin_db.dump().await);
+    let twin_kinds: Vec<char> = twin_db.kinds.lock().unwrap().iter().skip(before_ops as usize).cloned().collect();
     for k in 0..nops {
+        if sc.writes_only && !matches!(twin_kinds.get(k as usize), Some('s') | Some('S')) {
+            continue;
+        }
         if std::env::var("VERIF_DEBUG").is_ok() { eprintln!("c10 cfg {} cached {} parallel {} k {} / {}", cfg, cached, parallel, k, nops); }
         let db = FaultDb::new();
         let dir = fdir::<TC>(&db, cached, parallel).await;
@@ -393,6 +412,16 @@ pub fn run(seed: u64, tier: u32, which: &str) -> Cx {
         let mut shapes: Vec<u32> = if tier == 0 { vec![0, 2] } else { vec![0, 1, 2, 3, 3] };
         if which != "c10" {
             shapes.extend(std::iter::repeat(4).take(if tier == 0 { 12 } else { 60 }));
+        }
+        if which == "c10" {
+            // one large publish, faults at its writes (uncached and cached manager)
+            let sc = large_scenario();
+            c10_scenario::<W>(&mut cx, &sc, false, 0).await;
+            if tier != 0 {
+                c10_scenario::<E>(&mut cx, &sc, true, 2).await;
+            } else {
+                c10_scenario::<E>(&mut cx, &sc, true, 0).await;
+            }
         }
         for (i, sh) in shapes.iter().enumerate() {
             let sc = scenario(&mut r, *sh);
